@@ -93,7 +93,8 @@ namespace adept {
       template <int MyArrayNum, int MyScratchNum, int NArrays, int NScratch>
       Type value_stored_(const ExpressionSize<NArrays>& loc,
 			 const ScratchVector<NScratch>& scratch) const {
-	return scratch[MyScratchNum];
+	return arg.template value_stored_<MyArrayNum,MyScratchNum>(loc,
+								   scratch);
       }
 
       template <int MyArrayNum, int MyScratchNum, int NArrays, int NScratch>
@@ -110,9 +111,9 @@ namespace adept {
 			  const ExpressionSize<NArrays>& loc,
 			  const ScratchVector<NScratch>& scratch,
 			  MyType multiplier) const {
-	arg.template calc_gradient_<MyArrayNum, MyScratchNum+1>(stack, loc, 
-								scratch,
-								multiplier);
+	arg.template calc_gradient_<MyArrayNum, MyScratchNum>(stack, loc, 
+							      scratch,
+							      multiplier);
       }
 
       template <int MyArrayNum, int Rank, int NArrays>
